@@ -933,10 +933,11 @@ class Exec:
             st.aux['skip_yield'] = False; return False
         fr.idx -= 1      # re-execute this instruction on resume
         return True
-    def resume(s, st):
-        """continue a state that stopped at a scheduling point; returns the list of Results"""
+    def resume(s, st, at_yield=None):
+        """continue a state that stopped at a scheduling point; returns the list of Results. at_yield: the thread stopped BEFORE a shared access that must now execute
+        (None: guess from the position - wrong when the access is the first instruction of a function, so explorers that can, say it)"""
         results = []
-        st.aux['skip_yield'] = bool(st.aux.pop('at_yield', False)) if False else st.stack[-1].idx > 0 or st.stack[-1].blk != st.stack[-1].fn.entry
+        st.aux['skip_yield'] = (st.stack[-1].idx > 0 or st.stack[-1].blk != st.stack[-1].fn.entry) if at_yield is None else bool(at_yield)
         s.explore(st, None, results)
         return results
     def start(s, st, fname, args):
